@@ -267,6 +267,31 @@ def main(pid, tier, seed):
             else:
                 traces.append(lt)
 
+    # C03 also needs the guesser's loader to give every alpha variable of a base structure its own case-mask variable
+    # (Loader.tla InsLoop = InsertC): every file of the Loader model space through the real default load
+    ins = None
+    if pid == 'C03':
+        from . import check_loader
+        core.use_repo()
+        lmc, lcfg = check_loader.mc_stage()
+        files = check_loader.export_files(lcfg)
+        work = core.scratch('insert')
+        itraces, imeta = [], {}
+        for i, f in enumerate(files, 1):
+            if not any(x['s'][0][0] != 'M' for x in f):
+                continue
+            itraces.append(check_loader.load_trace(i, f, False, work, kind='insert'))
+            imeta[i] = {'check': 'loader gives every alpha variable its case mask',
+                        'file': [[check_loader.label_text(x['s']), x['w']] for x in f]}
+        iv, ist = core.validate_traces('TrLoader.tla', itraces, chunk=400, timeout=600)
+        for t in itraces:
+            v = iv[t['tid']]
+            if v[0] != 'ACCEPT':
+                m = imeta[t['tid']]
+                verdict.violation(dict(m, clause=v[2], failing=[v[2]], loaded=[x['s'] for x in t['defout']]),
+                                  'clause %s; %s' % (v[2], core.short(m, 260)))
+        ins = {'files_of_Loader_model_space_loaded': len(itraces), 'Loader_model_checking': lmc, 'trace_validation': ist}
+
     verdicts, st = core.validate_traces('TrTrain.tla', traces, chunk=200, timeout=900)
     for t in traces:
         v = verdicts[t['tid']]
@@ -296,7 +321,7 @@ def main(pid, tier, seed):
            'rule': 'C06: one trace = one saved list of one real training against the tallies captured from the trainer memory, the structure '
                    'list coverage clauses, or two trainings of the same input; C03: one trace = one real training + the real guesser run to '
                    'exhaustion with --skip_brute; non-trivial = list with more than one record',
-           'trainings': n_train, 'trace_validation': st, 'exhaustive': False, 'binding_selftest': selftest,
+           'trainings': n_train, 'loader_insertion': ins, 'trace_validation': st, 'exhaustive': False, 'binding_selftest': selftest,
            'known_findings_reproduced': n_known, 'violation_histogram': verdict.histogram()}
     core.write_evidence(pid, tier, seed, 'model_checking' if pid == 'C06' else 'exploration', cov, time.time() - t0, violations=n_viol,
                         assumptions=['TLC', 'written probability converted to an integer count c = round(p*total) and p == c/total checked in binary64 '
